@@ -13,6 +13,7 @@ documented residual `energyResT` with λ₀ = 0 and arbitrary c, a, α, β
 import EPV.Gen.Cog1D
 import EPV.Spec.Euler1D
 import EPV.Lemmas.Euler1D
+import EPV.Lemmas.HydroRobust
 import EPV.Tactics
 
 set_option linter.all false
@@ -27,31 +28,29 @@ theorem cog1_leaves : Cog1.okLeaves = [1] := rfl
 theorem cog1_mass (p : Cog1.P) (r t : ℝ) (hr : 0 < r) (ht : 0 < t) :
     massRes (Cog1.L1.density p) (Cog1.L1.velocity p) (p.geometry - 1) r t = 0 := by
   unfold massRes dr dt
-  rw [(Cog1.L1.density_hasDerivAt_t p r t ht).deriv, (Cog1.L1.density_hasDerivAt_r p r t hr).deriv,
-    (Cog1.L1.velocity_hasDerivAt_r p r t).deriv]
+  epv_hydro_rw_derivs [Cog1.L1.density_hasDerivAt_t p r t, Cog1.L1.density_hasDerivAt_r p r t,
+    Cog1.L1.velocity_hasDerivAt_r p r t]
   simp only [epv_deriv, epv_leaf]
-  field_simp
+  epv_hydro_field_simp
   ring
 
 /-- momentum; the code divides by ρ, so ρ₀ ≠ 0 is required -/
 theorem cog1_momentum (p : Cog1.P) (r t : ℝ) (hr : 0 < r) (ht : 0 < t) (hρ : p.rho0 ≠ 0) :
     momResT (Cog1.L1.density p) (Cog1.L1.velocity p) (Cog1.L1.temperature p) p.Gamma r t = 0 := by
   unfold momResT dr dt
-  rw [(Cog1.L1.velocity_hasDerivAt_t p r t ht.ne').deriv, (Cog1.L1.velocity_hasDerivAt_r p r t).deriv,
-    (Cog1.L1.density_hasDerivAt_r p r t hr).deriv, (Cog1.L1.temperature_hasDerivAt_r p r t hr).deriv]
+  epv_hydro_rw_derivs [Cog1.L1.velocity_hasDerivAt_t p r t, Cog1.L1.velocity_hasDerivAt_r p r t,
+    Cog1.L1.density_hasDerivAt_r p r t, Cog1.L1.temperature_hasDerivAt_r p r t]
   simp only [epv_deriv, epv_leaf]
-  have h1 := Real.rpow_pos_of_pos hr p.b
-  have h2 := Real.rpow_pos_of_pos ht (((-p.b) - (p.geometry - (1 : ℝ))) - (1 : ℝ))
-  field_simp
+  epv_hydro_field_simp
   ring
 
 theorem cog1_energy_hydro (p : Cog1.P) (r t : ℝ) (hr : 0 < r) (ht : 0 < t) (hγ : p.gamma - 1 ≠ 0) :
     energyHydroT (Cog1.L1.velocity p) (Cog1.L1.temperature p) p.Gamma p.gamma (p.geometry - 1) r t = 0 := by
   unfold energyHydroT dr dt
-  rw [(Cog1.L1.temperature_hasDerivAt_t p r t ht).deriv, (Cog1.L1.velocity_hasDerivAt_r p r t).deriv,
-    (Cog1.L1.temperature_hasDerivAt_r p r t hr).deriv]
+  epv_hydro_rw_derivs [Cog1.L1.temperature_hasDerivAt_t p r t, Cog1.L1.velocity_hasDerivAt_r p r t,
+    Cog1.L1.temperature_hasDerivAt_r p r t]
   simp only [epv_deriv, epv_leaf]
-  field_simp
+  epv_hydro_field_simp
   ring
 
 /-- the documented energy residual with no conduction (λ₀ = 0), any c, a, α, β -/
